@@ -332,7 +332,106 @@ def oracle_caller_dict(ctx):
                 samples=samples, failures=failures)
 
 
+# ------------------------------------------------------------------ user-built products over the outputs
+
+
+def up_check(case, sched):
+    """block_diagonalize, then products built by the user with the public cauchy_dot_product over the outputs
+    (H_tilde, U, U†): "UdU" = U† @ U (hermitian=True), "UdU_plain" (hermitian=False), "UHU" = U @ H_tilde @ U†
+    (3 factors, hermitian=True), "UHU_plain".  Requests over outputs and products are interleaved; every array
+    ever returned is frozen and deep-copied and re-compared after EVERY later request; at the end every request is
+    compared with a fresh computation."""
+    import warnings
+    from pymablock.series import cauchy_dot_product
+
+    def build():
+        H, out = bd_run(case)
+        H_t, U, Ud = out["H_tilde"], out["U"], out["U†"]
+        objs = dict(out)
+        objs["UdU"] = cauchy_dot_product(Ud, U, hermitian=True)
+        objs["UdU_plain"] = cauchy_dot_product(Ud, U, hermitian=False)
+        objs["UHU"] = cauchy_dot_product(U, H_t, Ud, hermitian=True)
+        objs["UHU_plain"] = cauchy_dot_product(U, H_t, Ud)
+        return H, objs
+
+    def get(objs, name, ix):
+        try:
+            return objs[name][tuple(ix)], None
+        except Exception as e:  # noqa: BLE001
+            return None, ("exn", PG.exn_class(e))
+
+    with warnings.catch_warnings():
+        warnings.simplefilter("ignore")
+        H, objs = build()
+        Hcopy = {k: copy.deepcopy(v) for k, v in H.items()}
+        returned = []
+        for name, ix in sched:
+            v, err = get(objs, name, ix)
+            if err is None:
+                _freeze(v)
+                returned.append((name, ix, _canon(v), v, copy.deepcopy(v)))
+            else:
+                returned.append((name, ix, err, None, None))
+            for n0, i0, c0, v0, vc0 in returned:
+                if v0 is not None and _canon(v0) != _canon(vc0):
+                    return "a value already returned (%s%s) was modified by the later request %s%s" % (n0, i0, name, ix)
+        for name, ix, c, v, vc in returned:
+            _, fresh = build()
+            fv, ferr = get(fresh, name, ix)
+            f = _canon(fv) if ferr is None else ferr
+            if f != c:
+                return "value of %s%s differs from a fresh computation" % (name, ix)
+        for k in H:
+            if _canon(H[k]) != _canon(Hcopy[k]):
+                return "an input array was modified"
+    return None
+
+
+def oracle_user_products(ctx):
+    from harness import gen
+
+    rng = ctx.rng
+    evaluations = nontrivial = 0
+    failures, samples = [], []
+    names = OUTS + ["UdU", "UdU", "UdU_plain", "UHU", "UHU_plain"]
+    for k in range(ctx.n(24, 200)):
+        case = gen.random_case(rng, hermitian=True, fmt=rng.choice(["dense", "dense", "sympy"]), max_blocks=2, max_size=2,
+                               max_params=2, N=2, allow_fully=False, allow_mask=False)
+        nb = max(case["sub"]) + 1
+        orders = KS.all_orders(case["nparam"], 2 if case["nparam"] == 2 else 3)
+        sched = []
+        for _ in range(6):
+            name = rng.choice(names)
+            i = rng.randrange(nb)
+            j = i if (name.startswith("U") and rng.random() < 0.7) else rng.randrange(nb)
+            sched.append((name, [i, j] + [int(x) for x in rng.choice(orders)]))
+        # outputs first at low order, then the products, then outputs again
+        sched = [("U", [0, 0] + [int(x) for x in orders[-1]]), ("U†", [0, 0] + [int(x) for x in orders[-1]])] + sched
+        evaluations += 1
+        if any(sum(ix[2:]) >= 2 for _, ix in sched):
+            nontrivial += 1
+        try:
+            what = up_check(case, sched)
+        except (ValueError, NotImplementedError) as e:
+            if "read-only" in str(e):
+                what = "an evaluation tried to write into an array already handed to the caller (%s)" % e
+            else:
+                continue
+        if what:
+            failures.append(dict(what=what, input=dict(level="user_products", case=case, schedule=[list(x) for x in sched])))
+        if len(samples) < 1:
+            samples.append(dict(case=case, schedule=sched))
+    return dict(evaluations=evaluations, nontrivial=nontrivial,
+                rule="block_diagonalize + user-built cauchy_dot_product over the outputs (hermitian and not, 2 and 3 factors) with a request at total order >= 2",
+                samples=samples, failures=failures)
+
+
 def replay_input(inp):
+    if inp.get("level") == "user_products":
+        try:
+            return up_check(inp["case"], [(n, ix) for n, ix in inp["schedule"]])
+        except ValueError as e:
+            return "an evaluation tried to write into an array already handed to the caller (%s)" % e
     if inp.get("level") == "caller_dict":
         return cd_check(inp["problem"], [tuple(x) for x in inp["schedule"]])
     if inp.get("level") == "block_diagonalize":
